@@ -19,7 +19,9 @@ Definition op_serial_from_multi : opfun := fun zs _ =>
 From QV.Core Require Import OF QcOF.
 From QV.Model Require Import Multinomial.
 
-Definition tol8 : Qc := rat_make 1 100000000.
+(* the Python literal 1e-8 denotes the IEEE double nearest to 10^-8, i.e. 3022314549036573 / 2^78 (slightly above 10^-8);
+   the model is executed with exactly that value so that decisions AT the threshold can be compared *)
+Definition tol8 : Qc := rat_make 3022314549036573 302231454903657293676544.
 (* read a length-prefixed block *)
 Definition block (l : list Z) : list Z * list Z :=
   match l with n :: t => (firstn (Z.to_nat n) t, skipn (Z.to_nat n) t) | [] => ([], []) end.
@@ -36,6 +38,19 @@ Definition op_md_construct : opfun := fun zs qs =>
       let sh := map Z.to_nat (fst (block rest)) in
       out_dist (construct Qc_OF tol8 eps ps (if (hs =? 0)%Z then None else Some sh))
   | _, _ => Err (-1) end.
+(* zs = has_shape :: has_eps :: block(shape) ; qs = eps_zero_argument :: ps   (eps_zero_argument ignored when has_eps = 0) *)
+Definition op_md_construct_arg : opfun := fun zs qs =>
+  match zs, qs with
+  | hs :: he :: rest, eps :: ps =>
+      let sh := map Z.to_nat (fst (block rest)) in
+      out_dist (construct_arg Qc_OF tol8 tol8 ps (if (hs =? 0)%Z then None else Some sh) (if (he =? 0)%Z then None else Some eps))
+  | _, _ => Err (-1) end.
+(* validate_prob_dist(ps, eps, validate_sum) with raise_error=True.  zs = [validate_sum; has_eps] ; qs = eps :: ps *)
+Definition op_md_validate : opfun := fun zs qs =>
+  match zs, qs with
+  | [vs; he], eps :: ps =>
+      match validate Qc_OF (if (he =? 0)%Z then tol8 else eps) (negb (vs =? 0)%Z) ps with MOk _ => Ok [] | MErr c => Err (Z.of_nat c) end
+  | _, _ => Err (-1) end.
 Definition mkdist (sh : list Z) (ps : list Qc) : dist Qc_OF :=
   Build_dist Qc_OF ps (map Z.to_nat sh) false.
 Definition op_md_marginalize : opfun := fun zs qs =>
@@ -48,10 +63,43 @@ Definition op_md_getitem : opfun := fun zs qs =>
   let '(sh, r1) := block zs in let '(ix, _) := block r1 in
   Ok [getitem Qc_OF (mkdist sh qs) (map Z.to_nat ix)].
 
+(* __getitem__ / StateEnsemble.state as coded (Python index rules).  zs = block(shape) ++ kind :: block(index)
+   kind 0: int argument (block = [i]); 1: tuple argument; 2: any other type.  qs = the sequence that is indexed
+   (probabilities, or position tags standing for the states) *)
+Definition op_md_index_get : opfun := fun zs qs =>
+  let '(sh, r1) := block zs in
+  match r1 with
+  | kind :: r2 =>
+      let '(ix, _) := block r2 in
+      let a := if (kind =? 0)%Z then (match ix with i :: _ => AInt i | [] => AOther end)
+               else if (kind =? 1)%Z then ATuple ix else AOther in
+      match index_get qs sh a with MOk v => Ok [v] | MErr c => Err (Z.of_nat c) end
+  | [] => Err (-1) end.
+
+(* measuring an ensemble (Model/C16_Ensemble.v): zs = block(old_shape) ++ block(mshape) ++ block(idx ++ j); qs = the blocks produced
+   from the old entries, in order, each of length M = prod mshape.  Returns the entry of measure_all at the multi-index. *)
+From QV.Model Require Import C16_Ensemble.
+Fixpoint chunks (m : nat) (n : nat) (l : list Qc) : list (list Qc) :=
+  match n with O => [] | S n' => firstn m l :: chunks m n' (skipn m l) end.
+Definition op_ens_measured_entry : opfun := fun zs qs =>
+  let '(osh, r1) := block zs in let '(msh, r2) := block r1 in let '(ix, _) := block r2 in
+  let osh := map Z.to_nat osh in let msh := map Z.to_nat msh in
+  let m := prodn msh in let n := prodn osh in
+  let blocks := chunks m n qs in
+  (* old entry e (identified by its position) is measured into blocks[e] *)
+  let table := measure_all (fun e : nat * Qc => map (fun q => (fst e, q)) (nth (fst e) blocks [])) (map (fun e => (e, 0%Qc)) (seq 0 n)) in
+  match nth_error table (rowmajorn (measured_shape osh msh) (map Z.to_nat ix)) with
+  | Some (e, q) => Ok [qz (Z.of_nat e); q; qz (Z.of_nat (length table))]
+  | None => Err 9 end.
+
 Definition C16_ops : optable :=
   [ ("idx.multi_from_serial"%string, op_multi_from_serial);
     ("idx.serial_from_multi"%string, op_serial_from_multi);
     ("md.construct"%string, op_md_construct);
+    ("md.construct_arg"%string, op_md_construct_arg);
+    ("md.validate"%string, op_md_validate);
     ("md.marginalize"%string, op_md_marginalize);
     ("md.conditionalize"%string, op_md_conditionalize);
-    ("md.getitem"%string, op_md_getitem) ].
+    ("md.getitem"%string, op_md_getitem);
+    ("md.index_get"%string, op_md_index_get);
+    ("ens.measured_entry"%string, op_ens_measured_entry) ].
